@@ -69,7 +69,8 @@ theorem decision_float (env : Env ν) (cells : List (Option ν)) (hne : cells.fi
       rw [Bool.and_eq_false_iff]
       rcases h with h | ⟨v, hv, hi⟩
       · left
-        rw [Bool.eq_false_iff, any_isNone_iff]; exact h
+        rw [Bool.eq_false_iff]
+        intro ha; exact h ((any_isNone_iff cells).mp ha)
       · right
         rw [Bool.eq_false_iff]
         intro ha
@@ -133,43 +134,39 @@ example : inferSeries { env0 with parses := fun _ => true } (strCol ["2020-01-02
     `|`, `,`, every token occurs in at least 5 rows (tokens counted once per row). -/
 theorem decision_strings (env : Env ν) (cells : List (Option Obj)) (hne : cells.filterMap id ≠ [])
     (hstr : ∀ o ∈ cells.filterMap id, o.isStr = true) (hp : env.parses (cells.filterMap id) = false) :
-    let ser := cells.filterMap id
-    let tok := fun sep => tokens env.split (strsOf ser) sep
     inferSeries env (.object cells) =
-      if ∀ x ∈ ser, 5 ≤ ser.count x then some .categorical
-      else if tok "|" ≠ [] ∧ ((∀ t ∈ tok "|", 5 ≤ (tok "|").count t) ∨ (tok "," ≠ [] ∧ ∀ t ∈ tok ",", 5 ≤ (tok ",").count t))
+      if ∀ x ∈ cells.filterMap id, 5 ≤ (cells.filterMap id).count x then some .categorical
+      else if tokens env.split (strsOf (cells.filterMap id)) "|" ≠ [] ∧
+          ((∀ t ∈ tokens env.split (strsOf (cells.filterMap id)) "|",
+              5 ≤ (tokens env.split (strsOf (cells.filterMap id)) "|").count t) ∨
+           (tokens env.split (strsOf (cells.filterMap id)) "," ≠ [] ∧
+            ∀ t ∈ tokens env.split (strsOf (cells.filterMap id)) ",",
+              5 ≤ (tokens env.split (strsOf (cells.filterMap id)) ",").count t))
       then some .multicategorical else some .text_embedded := by
-  intro ser tok
   have hnl : ∀ o ∈ cells.filterMap id, o.isList = false := by
     intro o ho; have := hstr o ho; cases o <;> simp_all [Obj.isStr, Obj.isList]
   rw [inferObject_nonlists env cells hnl]
-  have he : ser.isEmpty = false := by
-    cases h : cells.filterMap id with
-    | nil => exact absurd h hne
-    | cons _ _ => simp [ser, h]
+  generalize cells.filterMap id = ser at *
+  have he := isEmpty_false_of_ne hne
   have hall : ser.all Obj.isStr = true := List.all_eq_true.mpr hstr
   unfold inferNonList
   simp only [he, hp, hall, Bool.false_eq_true, if_false, Bool.not_true]
   by_cases hc : minCountGt ser threshold = true
-  · have h' := ((min_count_rule ser).1.mp hc).2
-    simp [ser, hc, h']
+  · rw [if_pos hc, if_pos ((min_count_rule ser).1.mp hc).2]
   · have h' : ¬ ∀ x ∈ ser, 5 ≤ ser.count x := fun hh => hc ((min_count_rule ser).1.mpr ⟨hne, hh⟩)
-    simp only [hc, h', if_false]
+    rw [if_neg hc, if_neg h']
     simp only [possibleSeps, map_cons, map_nil]
     rw [inferTokens_eq]
-    simp only [any_cons, any_nil, Bool.or_false]
-    have e1 : (!(tokens env.split (strsOf ser) "|").isEmpty) = decide (tok "|" ≠ []) := by
-      cases h : tokens env.split (strsOf ser) "|" <;> simp [tok, h]
-    have e2 : ∀ sep, minCountGt (tokens env.split (strsOf ser) sep) threshold
-        = decide (tok sep ≠ [] ∧ ∀ t ∈ tok sep, 5 ≤ (tok sep).count t) := by
-      intro sep
-      rw [Bool.eq_iff_iff, decide_eq_true_iff]
-      exact (min_count_rule _).1
-    rw [e1, e2, e2]
-    by_cases h1 : tok "|" ≠ []
-    · simp only [h1, true_and, ne_eq, not_false_eq_true, decide_true, Bool.true_and, Bool.or_eq_true, decide_eq_true_eq]
-      rfl
-    · simp [h1]
+    generalize tokens env.split (strsOf ser) "|" = T1
+    generalize tokens env.split (strsOf ser) "," = T2
+    have key : (!T1.isEmpty && [T1, T2].any (fun l => minCountGt l threshold)) = true ↔
+        (T1 ≠ [] ∧ ((∀ t ∈ T1, 5 ≤ T1.count t) ∨ (T2 ≠ [] ∧ ∀ t ∈ T2, 5 ≤ T2.count t))) := by
+      simp only [any_cons, any_nil, Bool.or_false, Bool.and_eq_true, Bool.or_eq_true,
+        (min_count_rule T1).1, (min_count_rule T2).1]
+      cases T1 <;> simp
+    by_cases hP : (T1 ≠ [] ∧ ((∀ t ∈ T1, 5 ≤ T1.count t) ∨ (T2 ≠ [] ∧ ∀ t ∈ T2, 5 ≤ T2.count t)))
+    · rw [if_pos hP, if_pos (key.mpr hP)]
+    · rw [if_neg hP, if_neg (fun h => hP (key.mp h))]
 
 example : inferSeries env0 (strCol (replicate 5 "red" ++ replicate 5 "blue")) = some .categorical ∧
     inferSeries env0 (strCol (replicate 4 "red" ++ replicate 5 "blue")) = some .text_embedded ∧
@@ -261,7 +258,7 @@ example : Homogeneous (listCol [[.flt true], [.flt true, .flt true]]) ∧
     inferSeries env0 (listCol [[.flt true], [.flt true, .flt true]]) = some .sequence_numerical := by
   refine ⟨Or.inl ?_, ColPerm.object (List.Perm.swap _ _ _), by decide⟩
   intro o ho
-  simp [listCol] at ho
+  simp at ho
   rcases ho with rfl | rfl <;> rfl
 
 /-- **index labels** are not an input of the inference -/
@@ -271,7 +268,7 @@ theorem labels_irrelevant (env : Env ν) (s : Series ν) (labels : List String) 
 example : inferLabelled env0 ((Series.mk ["0", "1"] (strCol ["x", "y"])).withLabels ["7", "7"])
     = inferLabelled env0 (Series.mk ["0", "1"] (strCol ["x", "y"])) := rfl
 
-/-- **missing cells**: adding or removing missing cells anywhere in a string-/list-valued (object, `str`) or
+/-- **missing cells**: adding or removing missing cells anywhere in a string- or list-valued (object, `str`) or
     datetime column does not change the result. -/
 theorem missing_irrelevant (env : Env ν) :
     (∀ a b : List (Option Obj), SameUpToMissing a b → inferSeries env (.object a) = inferSeries env (.object b)) ∧
@@ -281,7 +278,8 @@ theorem missing_irrelevant (env : Env ν) :
 /-- …whereas a float column is *documented* to react to a missing cell (the widened-integer rule) -/
 example : SameUpToMissing [some "x", none, some "y"] [some "x", some "y", none, none] ∧
     inferSeries env0 (.numeric .float (replicate 5 (some 1) ++ replicate 5 (some 2))) ≠
-    inferSeries env0 (.numeric .float (none :: replicate 5 (some 1) ++ replicate 5 (some 2))) := by decide
+    inferSeries env0 (.numeric .float (none :: replicate 5 (some 1) ++ replicate 5 (some 2))) :=
+  ⟨rfl, by decide⟩
 
 /-- **frames**: `infer_df_stype` is exactly the per-column inference over the columns that yield a type, in
     column order (column names distinct). -/
